@@ -19,10 +19,10 @@ CLASSES = ["valid", "trail", "trunc_at", "trunc_in", "disc", "len_pm", "nonmin",
 def run(ctx):
     ctx.assumptions += cc.ASSUMPTIONS
     ctx.assumptions.append("coverage-guided fuzzing of the decoders is replaced by the specification's structured mutation operators (DESIGN.md section 7)")
+    mcjob = cc.Background(cc.mc_codec, ctx, cc.static_consts(), part="mutants")   # design check, runs next to the Go build
     binp = cc.build(ctx)
     k, reg = cc.consts(ctx, binp)
     names = cc.schema_types(ctx, k)
-    cc.mc_codec(ctx, k, part="mutants")
     if ctx.replay:
         lines = vf.read_lines(ctx.replay)
         casep = ctx.tmp + "/cases.ndjson"
@@ -38,3 +38,4 @@ def run(ctx):
                "whose class is not 'valid'" % ", ".join(CLASSES), lambda r: r["cls"] != "valid")
     vf.validate_trace(ctx, "Codec_Trace", cc.shard_by_size(lines), constants=cc.trace_constants(k), timeout=1500, heap="3g",
                       par=6 if ctx.quick else 12, what="decoder is not strict / canonical")
+    mcjob.join()
